@@ -23,7 +23,7 @@ import (
 	"verif/harness/vt"
 )
 
-var c07Situations = []string{"never-opened", "closed", "connecting", "connected-not-selected", "deselected", "between-generations", "select-rejected"}
+var c07Situations = []string{"never-opened", "closed", "connecting", "connected-not-selected", "deselected", "between-generations", "select-rejected", "deselected-pipelined"}
 var c07Entries = []string{"SendDataMessage/W", "SendDataMessage/noW", "SendDataMessageAsync", "SendSECS2Message", "ReplyDataMessage", "ForwardDataMessage", "ForwardDataMessageAsync"}
 
 func callEntry(c hsms.Connection, entry string, n int) error {
@@ -76,7 +76,7 @@ func (m s2msg) Item() secs2.Item    { return m.it }
 func rapidBool(n int) bool { return n%2 == 0 }
 
 func TestC07Gate(t *testing.T) {
-	ev.Rule("(way of being not-selected: never opened / closed / connecting / connected-not-selected / deselected / between reconnect generations / select rejected) x role x all 7 data-sending entry points in drawn order x 0-3 inbound data frames; plus pipelined Select+data under drawn segmentations (one write, arbitrary cuts, 1-byte drip); oracle: error identity, drop counter delta, zero data bytes seen by the raw peer, Reject reason 4 echoing session id/system bytes, no handler call, link still answers a Linktest; non-trivial = any case other than never-opened")
+	ev.Rule("(way of being not-selected: never opened / closed / connecting / connected-not-selected / deselected / select+deselect in one write / between reconnect generations / select rejected) x role x all 7 data-sending entry points in drawn order x 0-3 inbound data frames; plus pipelined Select+data under drawn segmentations (one write, arbitrary cuts, 1-byte drip); oracle: error identity, drop counter delta, zero data bytes seen by the raw peer, Reject reason 4 echoing session id/system bytes, no handler call, link still answers a Linktest; non-trivial = any case other than never-opened")
 	vt.Bubble(t, func(t *testing.T) {
 		vt.CheckBubble(t, 30000, 1500000, func(rt *rapid.T) {
 			if rapid.IntRange(0, 3).Draw(rt, "part") == 0 {
@@ -168,6 +168,26 @@ func runC07Gate(rt *rapid.T) {
 			rt.Fatalf("VERIF-INFRA: %v", err)
 		}
 		_ = p.Send(e37.Control(e37.DeselectReq, session, 0, 0, 8))
+		synctest.Wait()
+		linkUp, wantState = true, hsms.NotSelectedState
+	case "deselected-pipelined":
+		// the select and the deselect arrive in ONE write: the second is committed on the receive path
+		// before the supervisor has processed the event of the first - a stale "select accepted" must
+		// not put the session back into Selected
+		open()
+		p, err = w.peerUp(time.Second)
+		if err != nil {
+			rt.Fatalf("VERIF-INFRA: %v", err)
+		}
+		if active {
+			f, ok := p.WaitFrame(0, func(f e37.Frame) bool { return f.SType == e37.SelectReq }, time.Second)
+			if !ok {
+				fail("no Select.req from the active endpoint")
+			}
+			_ = p.Send(e37.Control(e37.SelectRsp, f.F.Session, 0, 0, f.F.Sys), e37.Control(e37.DeselectReq, session, 0, 0, 8))
+		} else {
+			_ = p.Send(e37.Control(e37.SelectReq, session, 0, 0, 7), e37.Control(e37.DeselectReq, session, 0, 0, 8))
+		}
 		synctest.Wait()
 		linkUp, wantState = true, hsms.NotSelectedState
 	case "between-generations":
